@@ -31,10 +31,16 @@ def run(check: Check) -> None:
             for ii in ((True, False) if k == 1 else (True,)):
                 c = ch_c14.classify(s, include_intercept=ii)
                 if c.startswith("escape"):
-                    bad.append((s, c))
+                    bad.append((s, c, {"flags": ["TWOSIDED", "MULTIPART"], "ii": ii}))
+    for i, c, fl, ii in itertools.product(range(len(ch_c14.PYFRAGS)), range(len(ch_c14.PYCTX)), range(len(ch_c14.PYFLAGS)), (True, False)):
+        n += 1
+        s = ch_c14.PYCTX[c].replace("{}", ch_c14.PYFRAGS[i])
+        r = ch_c14.classify(s, ch_c14.PYFLAGS[fl], ii)
+        if r.startswith("escape") or r == "python-syntax":
+            bad.append((s, r, {"flags": list(ch_c14.PYFLAGS[fl]), "ii": ii, "valid_python": True}))
     check.obligation("streams/native cross-validation", "ground", n - len(bad))
-    for s, c in bad[:20]:
-        check.violation(f"{c}::{s}", f"{c}: formula {s!r}", {"kind": "c14_string", "s": s})
+    for s, c, extra in bad[:20]:
+        check.violation(f"{c}::{s}", f"{c}: formula {s!r} ({extra})", {"kind": "c14_string", "s": s, **extra})
     fns = {
         "tokenizer_total": [{"N": 3 if thorough else 2}],
         "err1": [None],
@@ -42,6 +48,7 @@ def run(check: Check) -> None:
         "err3": [{"SHARD": k, "M": (20 if thorough else 16)} for k in range(20 if thorough else 16)],
         "flags3": [{"SHARD": f, "N": (10 if thorough else 1), "M": (10 if thorough else 7)} for f in range(8)],
         "edit1": list(range(20 if thorough else 10)),
+        "pyfrag": list(range(25)) if thorough else [0, 2, 3, 4, 12, 17, 18, 24],
     }
     if thorough:
         fns["err3full"] = list(range(33))
